@@ -166,6 +166,7 @@ class HeapAnalyser:
         self._cont: List[List[Zone]] = []
         self._brk: List[List[Zone]] = []
         self.modifies: Dict[str, bool] = {}
+        self.aliases: set = set()
 
     # -- helpers ----------------------------------------------------------------------------------------------------
     def fresh(self) -> str:
@@ -187,7 +188,68 @@ class HeapAnalyser:
 
     def is_entries(self, n: CNode) -> bool:
         n = strip(n)
+        if n.kind == "DeclRefExpr" and n.props.get("ref") in self.aliases:
+            return True
         return n.kind == "MemberExpr" and n.props.get("name") == "heap_entries"
+
+    def _reallocating(self) -> set:
+        """functions of the unit that may move or free the entries array (call realloc / malloc / free, transitively)"""
+        direct = {"realloc", "malloc", "calloc", "free"}
+        out: set = set()
+        changed = True
+        while changed:
+            changed = False
+            for name, fn in self.unit.functions.items():
+                if name in out:
+                    continue
+                for c in fn.walk():
+                    if c.kind == "CallExpr" and c.children:
+                        callee = strip(c.children[0])
+                        ref = callee.props.get("ref") if callee.kind == "DeclRefExpr" else None
+                        if ref in direct or ref in out:
+                            out.add(name)
+                            changed = True
+                            break
+        return out
+
+    def find_aliases(self, body: CNode) -> None:
+        """
+        Local pointers that are only ever assigned `heap->heap_entries` stand for the entries array (subscripts through them are
+        checked like direct ones).  Such a pointer must not be used after a call that may reallocate the array.
+        """
+        self.aliases = set()
+        decls: Dict[str, CNode] = {}
+        bad: set = set()
+        for n in body.walk():
+            if n.kind == "VarDecl" and "HeapEntry *" in (n.props.get("type") or ""):
+                name = n.props.get("name")
+                decls[name] = n
+                if n.children and not (strip(n.children[-1]).kind == "MemberExpr" and strip(n.children[-1]).props.get("name") == "heap_entries"):
+                    bad.add(name)
+            if n.kind == "BinaryOperator" and n.props.get("opcode") == "=":
+                lhs = strip(n.children[0])
+                if lhs.kind == "DeclRefExpr" and "HeapEntry *" in (lhs.props.get("type") or ""):
+                    rhs = strip(n.children[1])
+                    if not (rhs.kind == "MemberExpr" and rhs.props.get("name") == "heap_entries"):
+                        bad.add(lhs.props.get("ref"))
+                    decls.setdefault(lhs.props.get("ref"), n)
+        self.aliases = {a for a in decls if a not in bad}
+        if not self.aliases:
+            return
+        realloc = self._reallocating() | {"realloc", "free"}
+        calls = [c for c in body.walk() if c.kind == "CallExpr" and c.children and strip(c.children[0]).kind == "DeclRefExpr"
+                 and strip(c.children[0]).props.get("ref") in realloc]
+        for a in sorted(self.aliases):
+            uses = [u for u in body.walk() if u.kind == "DeclRefExpr" and u.props.get("ref") == a]
+            loops = [l for l in body.walk() if l.kind in ("WhileStmt", "ForStmt", "DoStmt")]
+            for c in calls:
+                stale = any(u.line > c.line for u in uses) and decls[a].line <= c.line
+                for l in loops:
+                    inside = {id(x) for x in l.walk()}
+                    if id(c) in inside and any(id(u) in inside for u in uses) and id(decls[a]) not in inside:
+                        stale = True
+                self.obligations.append(Obligation("R6.2-alias-not-stale", self.fn, c.line, f"{a} across {text(c)}", not stale, "",
+                                                   f"the local pointer `{a}` to the entries array is used after a call that may move the array"))
 
     def assign(self, st: Zone, x: str, f: Form) -> None:
         if f is None:
@@ -574,6 +636,7 @@ class HeapAnalyser:
         self.fn = name
         self.exits = []
         body = self.unit.body(name)
+        self.find_aliases(body)
         out = self.stmt(body, entry.copy())
         if out is not None and not out.bottom:
             last = max((c.line for c in body.walk()), default=body.line)
